@@ -610,6 +610,8 @@ def check_value_finder(chk, prog, u):
                     except _VFUnknown as ex:
                         undec = str(ex)
                         continue
+                    if ret == ("int", 0):
+                        ret = ("NULL",)             # the null pointer constant written out (val_ptr = NULL; return val_ptr)
                     want_ret = ("EQ", 1) if E else (("NEXT",) if N else ("NULL",))
                     want_flag = 1 if E else 0
                     got_flag = out["flag"][1] if out["flag"] is not None and out["flag"][0] == "int" else None
